@@ -15,6 +15,8 @@ theorem tie_h_rest_agent_agent_agent_go : Extracted.Agent.h_rest_agent_agent_age
 theorem tie_h_rest_agent_persistence_model_status_go : Extracted.Agent.h_rest_agent_persistence_model_status_go = Canon.Agent.h_rest_agent_persistence_model_status_go := by decide +kernel
 theorem tie_h_rest_agent_persistence_model_node_go : Extracted.Agent.h_rest_agent_persistence_model_node_go = Canon.Agent.h_rest_agent_persistence_model_node_go := by decide +kernel
 theorem tie_h_rest_agent_client_client_go : Extracted.Agent.h_rest_agent_client_client_go = Canon.Agent.h_rest_agent_client_client_go := by decide +kernel
+theorem tie_h_rest_agent_sock_client_go : Extracted.Agent.h_rest_agent_sock_client_go = Canon.Agent.h_rest_agent_sock_client_go := by decide +kernel
+theorem tie_h_rest_agent_sock_server_go : Extracted.Agent.h_rest_agent_sock_server_go = Canon.Agent.h_rest_agent_sock_server_go := by decide +kernel
 
 #print axioms tie_h_agent_Agent_Status
 #print axioms tie_h_agent_Agent_Run
@@ -28,5 +30,7 @@ theorem tie_h_rest_agent_client_client_go : Extracted.Agent.h_rest_agent_client_
 #print axioms tie_h_rest_agent_persistence_model_status_go
 #print axioms tie_h_rest_agent_persistence_model_node_go
 #print axioms tie_h_rest_agent_client_client_go
+#print axioms tie_h_rest_agent_sock_client_go
+#print axioms tie_h_rest_agent_sock_server_go
 
 end BdModel.Tie.Agent
